@@ -105,6 +105,24 @@ theorem response101_lines (accept sub : Bytes) (compress : Bool)
       [[], []] := by
   first | exact RequestLogic.response101_lines .. | (apply RequestLogic.response101_lines <;> assumption)
 
+/-- no hijack on failure: a request that is refused for any reason other than the Hijack call itself
+    is refused whatever Hijack would have answered — the decision is taken before the connection is
+    taken over (in the model the hijack outcome `hj` is an environment answer consulted only after
+    every check has passed), so a refused handshake leaves the connection with net/http -/
+theorem rejected_before_hijack (u : UCfg) (r : Req) (rh : RespHdr) (oh : Option Bytes) (hj hj' : Hijack) (e : Reject)
+    (h : upgrade u r rh oh hj = .error e) (he : e ≠ .hijack) :
+    upgrade u r rh oh hj' = .error e := by
+  unfold upgrade at h ⊢
+  repeat' split at h
+  all_goals (simp_all; done)
+
+/-- … and a failing Hijack is reported as such (500), never as an upgrade -/
+theorem hijack_failure_rejected (u : UCfg) (r : Req) (rh : RespHdr) (oh : Option Bytes) (hj : Hijack) (hf : hj.ok = false) :
+    ∀ a, upgrade u r rh oh hj ≠ .ok a := by
+  intro a h
+  have := (upgrade_iff u r rh oh hj).mp ⟨a, h⟩
+  simp [hf] at this
+
 /-! ### non-vacuity -/
 section NonVacuity
 set_option linter.defProp false
@@ -293,6 +311,14 @@ example : splitCRLF (response101 witAccept (strBytes "superchat") true none) [] 
       (if true then [strBytes "Sec-WebSocket-Extensions: permessage-deflate; server_no_context_takeover; client_no_context_takeover"] else []) ++
       [[], []] :=
   response101_lines witAccept (strBytes "superchat") true witAccept_noCR
+
+/-- rejected_before_hijack on the cross-origin request: refused with 403 whether or not Hijack would work -/
+example : upgrade witU witReqCross none (some (strBytes "evil.example.org")) { witHj with ok := false } = .error .origin :=
+  rejected_before_hijack _ _ _ _ witHj _ _ witReqCross_rejected (by decide)
+
+/-- hijack_failure_rejected on the good request -/
+example : ∀ a, upgrade witU witReq none witOh { witHj with ok := false } ≠ .ok a :=
+  hijack_failure_rejected _ _ _ _ _ rfl
 
 end NonVacuity
 
